@@ -135,6 +135,164 @@ def gen_assertions(rng, cands, c, style):
     return WO, IRV
 
 
+# lossy ways of comparing two sets of identifiers that a careless implementation might use instead of set equality
+SLOPPY_KEYS = [lambda A: "".join(sorted(map(str, A))), lambda A: "".join(sorted("".join(map(str, A)))),
+               lambda A: frozenset(map(str, A)), lambda A: " ".join(sorted(map(str, A))),
+               lambda A: frozenset(str(x).strip() for x in A), lambda A: "".join(sorted(str(x).replace(" ", "") for x in A)),
+               lambda A: frozenset(str(x).lstrip("0") for x in A), lambda A: ",".join(sorted(map(str, A))).replace(" ", "")]
+
+
+def colliding_pairs(ids):
+    """pairs (A, B) of DIFFERENT subsets of ids that look alike under one of the lossy keys (e.g. {'12'} vs {'1','2'})"""
+    subs = [frozenset(cb) for r in range(0, min(len(ids), 4) + 1) for cb in itertools.combinations(ids, r)]
+    out = []
+    for key in SLOPPY_KEYS:
+        seen = {}
+        for A in subs:
+            seen.setdefault(key(A), []).append(A)
+        for grp in seen.values():
+            out += [(A, B) for A in grp for B in grp if A != B]
+    return out
+
+
+def gen_collide(rng, cands, c):
+    """an NEN assertion whose eliminated set is A while an elimination order that must SURVIVE passes the same candidate with
+    the look-alike set B eliminated; every other order is contradicted (so the survivor is the only unpruned leaf) or not"""
+    S = [x for x in cands if x != c]
+    opts = [(A, B, x) for (A, B) in colliding_pairs(cands) for x in S if x not in B and B <= set(S)]
+    if not opts:
+        return None
+    A, B, x = rng.choice(opts)
+    rest = [y for y in S if y not in B and y != x]
+    rng.shuffle(rest)
+    o = rng.sample(sorted(B, key=repr), len(B)) + [x] + rest + [c]          # the order that must survive
+    WO, IRV = [], [(x, set(A), rng.random() < 0.5)]
+    if rng.random() < 0.7:                                                   # contradict every other order, never o
+        orders = [list(p) + [c] for p in itertools.permutations(S)]
+        rng.shuffle(orders)
+        for o2 in orders:
+            if o2 == o or contradicted(o2, WO, IRV):
+                continue
+            i = next(j for j in range(len(o)) if o[j] != o2[j])              # first difference: same prefix set, other candidate
+            if i >= 1 and rng.random() < 0.4 and not neb_contradicts((o2[i], o2[i - 1], True), o):
+                WO.append((o2[i], o2[i - 1], rng.random() < 0.5))
+            else:
+                IRV.append((o2[i], set(o2[:i]), rng.random() < 0.5))
+    else:
+        for _ in range(rng.randint(0, 4)):
+            a = rand_neb(rng, cands)
+            if not neb_contradicts(a, o):
+                WO.append(a)
+            a = rand_nen(rng, cands)
+            if not nen_contradicts(a, o):
+                IRV.append(a)
+    assert not contradicted(o, WO, IRV)
+    rng.shuffle(IRV)
+    return WO, IRV
+
+
+def gen_big_world(rng, n):
+    """9-11 candidates, tree kept small by NEB assertions 'later one is never eliminated before earlier one' along a chosen
+    order (all pairs, minus a few adjacent pairs so that some neighbours may swap), the first m candidates left free with a
+    random small assertion set, and 0-2 extra assertions that bite only deep in the tree.  Returns (cands, c, WO, IRV, kind)."""
+    ids = [str(i) for i in rng.sample(range(1, 40), n)]
+    o, c = ids[:-1], ids[-1]                         # o[0] eliminated first ... c wins
+    kind = rng.choice(["chain", "chain_deep", "chain_deep", "swaps", "swaps_deep", "free_bottom", "free_bottom"])
+    m = rng.randint(3, 4) if kind == "free_bottom" else 0
+    gaps = set()
+    if kind.startswith("swaps"):
+        gaps = set(rng.sample(range(0, len(o) - 1, 2), rng.randint(1, 3)))     # disjoint adjacent pairs (i, i+1) left unordered
+    WO = []
+    for i in range(len(o)):
+        for j in range(i + 1, len(o)):
+            if (i < m and j < m) or (j == i + 1 and i in gaps):
+                continue
+            WO.append((o[i], o[j], rng.random() < 0.5))           # o[j] is never eliminated before o[i]
+    rng.shuffle(WO)
+    IRV = []
+    if m:
+        sub_wo, sub_irv = gen_assertions(rng, o[:m], o[m - 1], rng.choice(["random", "random", "empty_sets", "inconsistent", "none"]))
+        WO += [a for a in sub_wo]
+        IRV += sub_irv
+    if kind.endswith("deep"):
+        for _ in range(rng.randint(1, 2)):
+            d = rng.randint(0, 2)                                    # candidate o[d] sits n-1-d levels below the root
+            pre = o[:d]
+            if kind == "swaps_deep" and d >= 1 and rng.random() < 0.5:
+                pre = rng.sample(o[:d + 1], d)                       # may or may not be a reachable prefix
+            if d >= 1 and rng.random() < 0.3:
+                WO.append((o[d], rng.choice(o[:d]), True))
+            else:
+                IRV.append((o[d], set(pre), rng.random() < 0.5))
+    return ids, c, WO, IRV, kind
+
+
+def surviving_orders(S, c, WO, IRV, cap=200000):
+    """all elimination orders (perm of S, then c) contradicted by no assertion, found by extending the order from the FIRST
+    eliminated candidate onwards and abandoning a prefix as soon as an assertion is contradicted by it (by the meaning of the
+    assertions: NEB (l, w) once w goes out while l is still standing; NEN (x, E) once x goes out with exactly E gone).
+    Independent of the tree code (which works from the winner downwards).  None if more than `cap` prefixes are visited."""
+    allc = set(S) | {c}
+    out, visited = [], [0]
+
+    def ext(prefix, remaining):
+        visited[0] += 1
+        if visited[0] > cap:
+            raise OverflowError
+        gone = set(prefix)
+        cand = remaining if remaining else [c]
+        for y in cand:
+            if any(a[0] == y and set(a[1]) == gone for a in IRV):
+                continue
+            if any(a[1] == y and a[0] != y and a[0] in allc and a[0] not in gone for a in WO):
+                continue
+            if not remaining:
+                out.append(prefix + [c])
+            else:
+                ext(prefix + [y], [z for z in remaining if z != y])
+    try:
+        ext([], list(S))
+    except OverflowError:
+        return None
+    return out
+
+
+def shown_unpruned(t, back, path=()):
+    """the unpruned leaves of a canonical list-form tree, each as the elimination order it stands for (first eliminated first)"""
+    here = (back.get(t[1], t[1]),) + path
+    if t[0] == "L":
+        return [list(here)] if not t[2] and not t[3] else []
+    return [o for b in t[2] for o in shown_unpruned(b, back, here)]
+
+
+def oracle_orders(case):
+    """which unpruned leaves are shown vs which orders survive (any number of candidates)"""
+    c, S, WO, IRV, out = case["c"], case["S"], case["WO"], case["IRV"], case["impl"]
+    if "exc" in out:
+        return [("tree construction raises", out["exc"])]
+    surv = surviving_orders(S, c, WO, IRV)
+    if surv is None:
+        return None
+    f = mapper(case)
+    back = {f(x): x for x in list(S) + [c]}
+    bad = []
+    for form, has in (("list form", tree_has_unpruned(out["tree"])), ("tuple form", tuple_has_unpruned(out["tuple"]))):
+        if has != bool(surv):
+            bad.append((f"unpruned leaf shown ({form}) = {has} but " +
+                        ("an elimination order contradicted by no assertion exists" if surv else "every elimination order is contradicted"),
+                        {"uncontradicted_order": surv[0] if surv else None}))
+    shown = shown_unpruned(out["tree"], back)
+    key = lambda o: tuple(map(repr, o))  # noqa
+    if sorted(map(key, shown)) != sorted(map(key, surv)):
+        extra = [o for o in shown if key(o) not in set(map(key, surv))]
+        missing = [o for o in surv if key(o) not in set(map(key, shown))]
+        bad.append(("the unpruned leaves shown are not the elimination orders that survive all assertions",
+                    {"shown_but_contradicted_or_incomplete": extra[:2], "surviving_but_not_shown": missing[:2]}))
+    if out.get("mutated_args"):
+        bad.append(("buildRemainingTreeAsLists alters its arguments", None))
+    return bad
+
+
 STYLES = ["sufficient", "sufficient", "almost", "almost", "sufficient_redundant", "random", "random", "inconsistent",
           "empty_sets", "mention_c", "foreign", "none"]
 
@@ -144,7 +302,22 @@ def cint(x):
     return int(x) if isinstance(x, str) and re.fullmatch(r"\d+", x) else -99
 
 
-def canon_tree(t):
+def mapper(k):
+    """candidate id -> model number.  Worlds with awkward identifiers (ints mixed with strings, spaces, ids that are prefixes
+    / concatenations of each other, leading zeros) carry an explicit bijection k['idmap']; the others use the digits."""
+    m = k.get("idmap")
+    if m is None:
+        return cint
+
+    def f(x):
+        try:
+            return m.get(x, -99) if type(x) in (str, int) else -99
+        except TypeError:
+            return -99
+    return f
+
+
+def canon_tree(t, cint=cint):
     """list form -> ('L', c, nebtags, irvtags) | ('N', c, [children sorted by candidate]); malformed -> ('N', -99, [])"""
     try:
         if isinstance(t, list) and len(t) == 1:
@@ -154,7 +327,7 @@ def canon_tree(t):
                 tags.append([(int(i), bool(b)) for (i, b) in tl] if all(isinstance(i, int) and isinstance(b, bool) for i, b in tl) else [(4999, True)])
             return ("L", cint(nd.cand), tags[0], tags[1])
         if isinstance(t, list) and len(t) == 2 and isinstance(t[1], list):
-            return ("N", cint(t[0]), sorted((canon_tree(b) for b in t[1]), key=lambda n: n[1]))
+            return ("N", cint(t[0]), sorted((canon_tree(b, cint) for b in t[1]), key=lambda n: n[1]))
     except Exception:  # noqa
         pass
     return ("N", -99, [])
@@ -163,7 +336,7 @@ def canon_tree(t):
 TAG_RE = re.compile(r"(?:NEB (\d+(?:,\d+)*)\n(Confirmed|Unconfirmed))?(\n)?(?:IRV (\d+(?:,\d+)*)\n(Confirmed|Unconfirmed))?")
 
 
-def canon_tuple(t):
+def canon_tuple(t, cint=cint):
     """tuple form -> ('L', c, neb_part|None, irv_part|None, unpruned) | ('N', c, [children sorted])"""
     try:
         if isinstance(t, tuple) and len(t) == 2 and isinstance(t[1], str):
@@ -176,13 +349,13 @@ def canon_tuple(t):
                 return ("L", cint(t[0]), nb, iv, False)
             return ("L", cint(t[0]), ([4999], True), ([4999], True), True)      # unparseable tag: cannot match the model
         if isinstance(t, tuple) and len(t) >= 2:
-            return ("N", cint(t[0]), sorted((canon_tuple(b) for b in t[1:]), key=lambda n: n[1]))
+            return ("N", cint(t[0]), sorted((canon_tuple(b, cint) for b in t[1:]), key=lambda n: n[1]))
     except Exception:  # noqa
         pass
     return ("N", -99, [])
 
 
-def run_tree(V, c, S, WO, IRV, live=None):
+def run_tree(V, c, S, WO, IRV, live=None, f=cint):
     """call the real code on fresh copies (it must not keep or alter them), or — live=(list, list) — on the caller's own
     long-lived list objects, which the caller edits in place between calls"""
     wo = [tuple(a) for a in WO] if live is None else live[0]
@@ -197,7 +370,7 @@ def run_tree(V, c, S, WO, IRV, live=None):
         except Exception as e:  # noqa
             return {"exc": f"{type(e).__name__}: {e}"}
     mutated = s != set(S) or wo != [tuple(a) for a in WO] or any(x[1] != set(y[1]) for x, y in zip(irv, IRV))
-    return {"tree": canon_tree(t), "tuple": canon_tuple(tt), "raw_tuple": tt, "mutated_args": mutated}
+    return {"tree": canon_tree(t, f), "tuple": canon_tuple(tt, f), "raw_tuple": tt, "mutated_args": mutated}
 
 
 # ------------------------------------------------------------------ oracle
@@ -219,7 +392,8 @@ def oracle_tree(case):
     if "exc" in out:
         return [("tree construction raises", out["exc"])]
     bad = []
-    ci = {x: cint(x) for x in list(S) + [c]}
+    f = mapper(case)
+    ci = {x: f(x) for x in list(S) + [c]}
     back = {v: k for k, v in ci.items()}
     orders = [list(p) + [c] for p in itertools.permutations(S)]
     free = [o for o in orders if not contradicted(o, WO, IRV)]
@@ -435,6 +609,7 @@ BAD_TREE = ("N", -98, [])
 
 
 def tree_case_lit(k):
+    cint = mapper(k)
     out = k["impl"]
     t = out.get("tree", BAD_TREE)
     tt = out.get("tuple", BAD_TREE)
@@ -445,8 +620,8 @@ def tree_case_lit(k):
 
 
 def tree_case_json(k):
-    return {"c": k["c"], "S": sorted(k["S"]), "WOLosers": [list(a) for a in k["WO"]],
-            "IRVElims": [[a[0], sorted(a[1]), a[2]] for a in k["IRV"]], "style": k.get("style"),
+    return {"c": k["c"], "S": sorted(k["S"], key=repr), "WOLosers": [list(a) for a in k["WO"]],
+            "IRVElims": [[a[0], sorted(a[1], key=repr), a[2]] for a in k["IRV"]], "style": k.get("style"),
             "implementation_tuple_tree": C.jsonable(k["impl"].get("raw_tuple", k["impl"].get("exc")))}
 
 
@@ -496,7 +671,11 @@ def parse_case_json(k):
 
 
 # ------------------------------------------------------------------ entry point
-POOLS = [["15", "16", "17", "18", "45", "3"], ["1", "2", "3", "4", "5", "6"], ["101", "7", "20", "9", "33", "64"]]
+POOLS = [["15", "16", "17", "18", "45", "3"], ["1", "2", "3", "4", "5", "6"], ["101", "7", "20", "9", "33", "64"],
+         ["1", "2", "12", "21", "10", "102"]]          # last: digit strings of different lengths, one the concatenation of others
+# identifiers that are not plain numbers: prefixes / concatenations, spaces, ints next to strings, leading zeros
+AWKWARD = [["a", "ab", "b", "abb", "ba", "bab"], ["A B", "A", "B", "A  B", "B A", " A"], [1, "1", 2, "2", 12, "12"],
+           ["1", "01", "10", "001", "100", "0"], ["x,y", "x", "y", "y,x", "x y", "xy"]]
 
 
 def run(ctx, res):
@@ -508,19 +687,31 @@ def run(ctx, res):
     tcases, pcases = [], []
     for g in range(n_groups):
         ncand = rng.choice([2, 3, 3, 4, 4, 4, 5, 5, 6]) if ctx.quick else rng.choice([2, 3, 4, 4, 5, 5, 6, 6])
-        cands = rng.sample(rng.choice(POOLS), ncand)
+        gm = None                                   # explicit id -> number bijection for awkward identifiers
+        if rng.random() < 0.3:
+            cands = rng.sample(rng.choice(AWKWARD), ncand)
+            gm = {x: i + 1 for i, x in enumerate(cands)}
+            gm.update({"900": 900, "901": 901})
+            stats["awkward_id_groups"] = stats.get("awkward_id_groups", 0) + 1
+        else:
+            cands = rng.sample(rng.choice(POOLS), ncand)
+        can_collide = ncand >= 3 and bool(colliding_pairs(cands))
         # several consecutive calls in one process over the SAME candidate ids with different assertion sets
         for k in range(rng.randint(3, 6) if ncand < 6 else 2):
             style = rng.choice(STYLES)
             c = rng.choice(cands)
-            WO, IRV = gen_assertions(rng, cands, c, style)
+            got = gen_collide(rng, cands, c) if can_collide and rng.random() < 0.4 else None
+            if got:
+                style, (WO, IRV) = "collide", got
+            else:
+                WO, IRV = gen_assertions(rng, cands, c, style)
             alts = [c] + ([rng.choice(cands)] if rng.random() < 0.5 else [])
             for c2 in alts:
                 S = [x for x in cands if x != c2]
                 if rng.random() < 0.02:
                     S = S + [c2]                      # the "c is in S" message path (prints, then carries on)
                     stats["c_in_S_calls"] += 1
-                tcases.append({"c": c2, "S": S, "WO": WO, "IRV": IRV, "style": style, "ncand": ncand})
+                tcases.append({"c": c2, "S": S, "WO": WO, "IRV": IRV, "style": style, "ncand": ncand, "idmap": gm})
         # the SAME list objects reused over consecutive builds and edited in place between them (assertion popped, appended,
         # replaced, a set inside a tuple altered, cleared and refilled), and lists dropped and re-created back to back (their
         # id may be recycled): the tree must depend on the lists' contents at the time of the call only
@@ -574,21 +765,22 @@ def run(ctx, res):
                     del live_wo, live_irv
                     live_wo, live_irv = list(WO), list(IRV)
                     k = {"c": c_live, "S": [x for x in cands if x != c_live], "WO": [tuple(a) for a in live_wo],
-                         "IRV": [(a[0], set(a[1]), a[2]) for a in live_irv], "style": "live-recreate", "ncand": ncand}
-                    k["impl"] = run_tree(V, k["c"], k["S"], k["WO"], k["IRV"], live=(live_wo, live_irv))
+                         "IRV": [(a[0], set(a[1]), a[2]) for a in live_irv], "style": "live-recreate", "ncand": ncand, "idmap": gm}
+                    k["impl"] = run_tree(V, k["c"], k["S"], k["WO"], k["IRV"], live=(live_wo, live_irv), f=mapper(k))
                     tcases.append(k)
                     stats["live_builds"] = stats.get("live_builds", 0) + 1
                 continue
             if rng.random() < 0.15:
                 c_live = rng.choice(cands)
             k = {"c": c_live, "S": [x for x in cands if x != c_live], "WO": [tuple(a) for a in live_wo],
-                 "IRV": [(a[0], set(a[1]), a[2]) for a in live_irv], "style": "live-" + edit, "ncand": ncand}
-            k["impl"] = run_tree(V, k["c"], k["S"], k["WO"], k["IRV"], live=(live_wo, live_irv))     # snapshot taken above
+                 "IRV": [(a[0], set(a[1]), a[2]) for a in live_irv], "style": "live-" + edit, "ncand": ncand, "idmap": gm}
+            k["impl"] = run_tree(V, k["c"], k["S"], k["WO"], k["IRV"], live=(live_wo, live_irv), f=mapper(k))     # snapshot taken above
             tcases.append(k)
             stats["live_builds"] = stats.get("live_builds", 0) + 1
         # parseAssertions on both dialects, and trees built from what it returns (as buildPrintedResults does)
+        pcands = cands if gm is None else rng.sample(rng.choice(POOLS), ncand)     # the parse generator wants numeric ids
         for _ in range(3):
-            pc = gen_parse_case(rng, cands)
+            pc = gen_parse_case(rng, pcands)
             out = run_parse(V, pc)
             stats["parse_cases"] += 1
             if "exc" in out:
@@ -615,9 +807,26 @@ def run(ctx, res):
         for combo in itertools.combinations(univ, r):
             tcases.append({"c": "1", "S": ["2", "3"], "WO": [a for t, a in combo if t == "neb"], "IRV": [a for t, a in combo if t == "nen"],
                            "style": "exhaustive3", "ncand": 3})
+    # the same complete small domain under renamings to awkward identifiers (only the names change, the model sees numbers)
+    for names in (["1", "2", "12"], ["a", "b", "ab"], [12, "12", "1"], ["A B", "A", "B"]) if ctx.quick else \
+            [rng.sample(pool, 3) for pool in AWKWARD + POOLS[3:] for _ in range(3)]:
+        ren = dict(zip(ids3, names))
+        gm3 = {x: i + 1 for i, x in enumerate(names)}
+        for c3 in (names[:1] if ctx.quick else names):
+            for r in (0, 1, 2):
+                for combo in itertools.combinations(univ, r):
+                    tcases.append({"c": c3, "S": [x for x in names if x != c3],
+                                   "WO": [(ren[a[0]], ren[a[1]], a[2]) for t, a in combo if t == "neb"],
+                                   "IRV": [(ren[a[0]], {ren[y] for y in a[1]}, a[2]) for t, a in combo if t == "nen"],
+                                   "style": "exhaustive3-renamed", "ncand": 3, "idmap": gm3})
+    # contests with MANY candidates whose assertion sets keep the tree small but deep
+    for _ in range(ctx.n(24, 200)):
+        n = rng.choice([9, 10, 10, 11, 11])
+        ids, cb, WO, IRV, kind = gen_big_world(rng, n)
+        tcases.append({"c": cb, "S": ids[:-1], "WO": WO, "IRV": IRV, "style": "big-" + kind, "ncand": n})
     for k in tcases:
         if "impl" not in k:
-            k["impl"] = run_tree(V, k["c"], k["S"], k["WO"], k["IRV"])
+            k["impl"] = run_tree(V, k["c"], k["S"], k["WO"], k["IRV"], f=mapper(k))
         stats["n_candidates"][k["ncand"]] = stats["n_candidates"].get(k["ncand"], 0) + 1
         stats["styles"][k["style"]] = stats["styles"].get(k["style"], 0) + 1
         if "tree" in k["impl"]:
@@ -625,7 +834,17 @@ def run(ctx, res):
             stats["unpruned" if up else "fully_pruned"] += 1
         if k["c"] not in k["S"]:
             res.oracle_runs += 1
-            for what, detail in oracle_tree(k)[:3]:
+            found = oracle_tree(k)[:3] if k["ncand"] <= 7 else []      # all |S|! orders, tags of every pruned node
+            lazy = oracle_orders(k)                                      # shown unpruned leaves == surviving orders, any size
+            if lazy is None:
+                stats["order_search_gave_up"] = stats.get("order_search_gave_up", 0) + 1
+            else:
+                if "tree" in k["impl"] and k["ncand"] >= 9:
+                    dp = max([len(o) - 1 for o in shown_unpruned(k["impl"]["tree"], {})] + [0])
+                    stats["big_worlds_with_surviving_leaf" if dp else "big_worlds_fully_pruned"] = \
+                        stats.get("big_worlds_with_surviving_leaf" if dp else "big_worlds_fully_pruned", 0) + 1
+                found += [x for x in lazy if x[0] not in {w for w, _ in found}][:2]
+            for what, detail in found:
                 res.oracle_violations.append({"what": what, "input": tree_case_json(k), "observed": C.jsonable(detail),
                                               "signature": "C20:" + what.split(" =")[0]})
         if k["WO"] or k["IRV"]:
@@ -635,7 +854,11 @@ def run(ctx, res):
     cr2 = C.run_corr(ctx.pid, "parse", IMPORTS, "parse_case", pcases, parse_case_lit, "agree_parse", shard=120, show="show_parse")
     res.corr.append(("parseAssertions (RLA-log and RAIRE dialects) vs IrvVis.parse_assertions", cr2, parse_case_json))
     res.evaluations += len(tcases) + len(pcases)
-    res.rule = ("3 candidates: every set of <= 2 assertions out of all 18 possible tuples; then, per candidate-id set, 4-8 builds on the SAME WOLosers/IRVElims list objects edited in place between builds (pop, append, replace, set inside a tuple altered, clear, reverse, refill) or dropped and re-created, the oracle run on every build; groups of 3-6 consecutive calls over one candidate-id set (2-6 candidates) with different assertion sets: sufficient sets "
+    res.rule = ("3 candidates: every set of <= 2 assertions out of all 18 possible tuples, also under renamings to awkward ids; 30% of "
+                "the groups use identifiers that are prefixes / concatenations of each other, contain spaces, mix ints and strings or "
+                "have leading zeros, with NEN assertions whose eliminated set looks like (but is not) the set on a surviving order; "
+                "9-11 candidate worlds kept small by NEB chains with deep (level 7-10) contradictions or surviving leaves, checked by "
+                "an independent forward search over elimination orders; then, per candidate-id set, 4-8 builds on the SAME WOLosers/IRVElims list objects edited in place between builds (pop, append, replace, set inside a tuple altered, clear, reverse, refill) or dropped and re-created, the oracle run on every build; groups of 3-6 consecutive calls over one candidate-id set (2-6 candidates) with different assertion sets: sufficient sets "
                 "built by brute force on the meaning of the assertions, the same minus one assertion, with duplicated tuples (same / flipped "
                 "proved flag), random, mutually inconsistent, NEN with empty eliminated set, assertions naming the alternative winner, "
                 "foreign candidate ids, none; trees also built from parseAssertions output; parse files in both dialects (assertion_json "
